@@ -93,6 +93,15 @@ func c18PropBase(race bool) *pProp {
 				// clients of such a schedule apply the same Option values
 				sharedOpts := r.chance(1, 3)
 				sharedEntryEmpty := sharedOpts && r.chance(1, 2)
+				// one file on disk that all clients of the schedule parse with
+				// ParseFile, each with its own options and plan
+				sharedFile := r.chance(1, 7)
+				sharedInput := inputs[r.intn(len(inputs))]
+				// one call of the schedule is heavy: a grammar whose repetitions can go
+				// on without consuming input, stopped only by a budget of some hundred
+				// thousand expressions (what such a call leaves behind in the package
+				// must not show in the others)
+				heavy := gp.G.NullableLoops() && r.chance(1, 3)
 				var clients [][]parsersim.Call
 				for c := 0; c < nc; c++ {
 					var calls []parsersim.Call
@@ -116,9 +125,23 @@ func c18PropBase(race bool) *pProp {
 						if r.chance(1, 8) {
 							plan.Faults = []kernel.Fault{{Site: 1 + r.intn(len(gp.G.Sites)+1), N: 1 + r.intn(2), Kind: []string{"panic-err", "panic-str"}[r.intn(2)]}}
 						}
-						calls = append(calls, parsersim.Call{Input: inputs[r.intn(len(inputs))], Opts: o, Plan: plan})
+						in := inputs[r.intn(len(inputs))]
+						if sharedFile {
+							o.UseFile, o.FilePrepared, o.UseReader = true, true, false
+							in = sharedInput
+						}
+						if heavy && c == 0 && len(calls) == 0 {
+							o.MaxExpr = uint64(70000 + r.intn(60000))
+							o.Memoize = false
+							plan.MaxEvents = 200000
+						}
+						calls = append(calls, parsersim.Call{Input: in, Opts: o, Plan: plan})
 					}
 					clients = append(clients, calls)
+				}
+				stepCap := int64(60000)
+				if heavy {
+					stepCap = 40000000
 				}
 				var sc simrt.SchedConfig
 				switch r.intn(4) {
@@ -129,7 +152,7 @@ func c18PropBase(race bool) *pProp {
 				}
 				pool := simsync.PoolConfig{NewPct: r.intn(20), RandomPct: r.intn(50), FIFOPct: r.intn(30), DropPct: r.intn(10)}
 				reqs = append(reqs, &parsersim.Request{ID: fmt.Sprintf("c18-%s-s%d", gp.Name, k), Kind: "c18", Parser: gp.Name,
-					Clients: clients, Sched: sc, Pool: pool, Seed: r.u64(), StepCap: 60000})
+					Clients: clients, Sched: sc, Pool: pool, Seed: r.u64(), StepCap: stepCap})
 			}
 			if r.chance(1, 2) {
 				// a crowd: 66-125 clients with one small call each, switched so often
